@@ -138,7 +138,7 @@ def compute(events, spec, plan=None, opts=None):
             # the n-th execution of a test belongs to --repeat iteration n
             while len(its) <= it:
                 its.append({'tests': 0, 'F': 0, 'E': 0, 'S': 0})
-            its[it]['tests'] += 1
+            its[it]['tests'] += int(ts.get('count', 1))
             its[it]['F'] += len(c['F']) + len(c['U'])
             its[it]['E'] += len(c['E'])
             its[it]['S'] += len(c['S'])
